@@ -695,13 +695,6 @@ def prop_mixS(ch, ctx):
     if kf is None: kf = ch.logfloat('scale.k', -3, 3)
     Sk = ctx.call('mix.S', mix.S, ph, mol * kf, T, P, region=rg)
     ctx.check(close(Sk, kf * Sm, 1e-11, kf * sc), f'mix.S.extensive|{rg}|mismatch', f'S(k n) = {Sk!r}, k S(n) = {kf * Sm!r}')
-    # an absent chemical (zero flow) does not contribute
-    pure = float(mol @ Si)
-    want = pure + mixing_term(mol)
-    ctx.metric_max('mix:S_rel', abs(Sm - want) / sc)
-    if not close(Sm, want, 1e-11, sc):
-        ctx.fail(f'mix.S.term|{rg}|mismatch',
-                 f'S_mix - sum n_i S_i = {Sm - pure!r}, -R sum n_i ln x_i = {want - pure!r} (mol={mol.tolist()}, {tags})')
     if ch.bool('multi'):
         ctx.cell('mix:multi')
         ph2 = ch.choice('phase2', [p for p in PHASES if p != ph])
@@ -710,6 +703,17 @@ def prop_mixS(ch, ctx):
         S2 = ctx.call('mix.S', mix.S, ph2, mol2, T, P, region=rg)
         xS = ctx.call('mix.xS', mix.xS, [(ph, mol), (ph2, mol2)], T, P, region=rg)
         ctx.check(close(xS, Sm + S2, 1e-12, abs(Sm) + abs(S2)), f'mix.xS|{rg}|mismatch', f'xS = {xS!r}, S+S2 = {Sm + S2!r}')
+    # the ideal mixing term (last, so that the clauses above are still examined inside finding C07-F2's region)
+    pure = float(mol @ Si)
+    want = pure + mixing_term(mol)
+    ctx.metric_max('mix:S_rel', abs(Sm - want) / sc)
+    if not close(Sm, want, 1e-11, sc):
+        # name the observed wrong term, so that a *different* wrong mixing term is a different signature
+        n = mol[mol > 0]
+        plus_nlnx = float((n * np.log(n / n.sum())).sum())
+        kind = 'term=+sum(n*ln(x))' if close(Sm - pure, plus_nlnx, 1e-11, sc) else 'mismatch'
+        ctx.fail(f'mix.S.term|{rg}|{kind}',
+                 f'S_mix - sum n_i S_i = {Sm - pure!r}, -R sum n_i ln x_i = {want - pure!r} (mol={mol.tolist()}, {tags})')
     if ncomp >= 2:
         ctx.nontriv(['mixS', tags, ph, (mol > 0).tolist()])
 
